@@ -275,6 +275,73 @@ class ClientDirections(Harness):
             yield 'json-list-is-one-the-peer-sent', s_or(OL.s_list_eq(obs['json'][c], inp['s2c'][c]), OL.s_list_eq(obs['json'][c], inp['c2s'][c]))
 
 
+def empty_row_names():
+    """per category, a name of the CURRENT table whose row carries no notes and no version information (rendered as a bare name)"""
+    from vf.harness import mods
+    db = mods()[1].ssh2_kexdb.SSH2_KexDB.MASTER_DB
+    out = {}
+    for c in OL.CATS:
+        e = sorted(k for k, v in db[c].items() if v == [[]])
+        out[c] = e[0] if e else None
+    return out
+
+
+class AuditNames(Harness):
+    """the whole real audit() of a server (scripted network: KEXINIT with symbolic names, every later probe connection answered with the same banner and KEXINIT
+    and then closed, so that the host-key and group-exchange probes reconnect and send their own KEXINIT): the JSON document and the text report still list
+    exactly the advertised names and compression methods, in order - nothing the probes do may edit what was parsed."""
+    prop, ob = PROP, 'O6'
+    width = 64
+
+    def __init__(self, comp, json):
+        self.comp, self.json = tuple(comp), json
+        self.name = 'auditnames-c(%s)-%s' % (','.join(str(x) for x in comp), 'json' if json else 'text')
+
+    def params(self):
+        return {'comp': list(self.comp), 'json': self.json}
+
+    def inputs(self):
+        az = ((0x61, 0x7A),)
+        return {'n': {c: zx.fresh_str('n' + c, 2, az) for c in OL.CATS}, 'comp': [zx.fresh_str('cmp%d' % i, 2, az) if x == 1 else x for i, x in enumerate(self.comp)]}
+
+    def run(self, M, inp):
+        from props.c09 import BANNER
+        n = inp['n']
+        L = {'kex': ['curve25519-sha256', n['kex'], 'diffie-hellman-group-exchange-sha256'], 'key': ['ssh-ed25519', n['key'], 'ssh-rsa'], 'enc': [n['enc'], 'aes128-ctr'],
+             'mac': ['hmac-sha2-256', n['mac']]}
+        pk = AE.frame(AE.kexinit_payload(L['kex'], L['key'], L['enc'], L['mac'], comp=list(inp['comp'])))
+        conns = [AE.Conn([BANNER, pk])] + [AE.Conn([BANNER, pk], 'close') for _ in range(14)]
+        if zx.active():
+            zx.cur().stdout = []
+        cj = OL.CaptureJson()
+        with AE.patched(M.ssh_audit, json=cj):
+            r = AE.run_audit(M, conns, json=self.json)
+        if isinstance(r['ret'], Exc):
+            return {'exc': r['ret']}
+        nprobe = len(r['net'].made) - 1
+        if self.json:
+            d = cj.docs[-1][0] if cj.docs else None
+            if d is None:
+                return {'exc': Exc('NoJson', 'no document')}
+            return {'names': {c: [e['algorithm'] for e in d[c]] for c in OL.CATS}, 'comp': d['compression'], 'L': L, 'nprobe': nprobe}
+        heads = OL.first_lines_per_cat(r['lines'])
+        gen = [ln for ln in r['lines'] if OL._starts(ln, '(gen) compression: ')]
+        return {'names': heads, 'gen': gen, 'L': L, 'nprobe': nprobe}
+
+    def check(self, inp, obs):
+        if 'exc' in obs:
+            yield 'no-exception', False
+            return
+        yield 'probes-reconnected(reachability)', obs['nprobe'] >= 2
+        yield 'names-as-advertised-after-the-probes', s_and(*[OL.s_list_eq(obs['names'][c], obs['L'][c]) for c in OL.CATS])
+        if self.json:
+            yield 'compression-as-sent-after-the-probes', OL.s_list_eq(obs['comp'], list(inp['comp']))
+        else:
+            comps = [x for x in inp['comp'] if not bool(x == 'none')]
+            want = '(gen) compression: ' + ('enabled (' + zx.shims.zx_join(', ', comps) + ')' if comps else 'disabled')
+            yield 'compression-as-sent-after-the-probes', any(bool(g == want) for g in obs['gen'])
+
+
 class Ssh1(Harness):
     """SSH-1: cipher/authentication masks decode to exactly the names of the set bits; text and JSON show them."""
     prop, ob = PROP, 'O4'
@@ -353,6 +420,10 @@ def tasks(tier):
         {'kex': (k['kex'][0], 1), 'key': (1, k['key'][1]), 'enc': (k['enc'][1], 1), 'mac': (k['mac'][0], k['mac'][1])},
         {'kex': (k['kex'][1], k['kex'][1]), 'key': (1, 1), 'enc': (k['enc'][0],), 'mac': (1,)},
     ]
+    er = empty_row_names()
+    if all(er.values()):
+        shapes.append({c: (er[c], 1) for c in OL.CATS})
+        shapes.append({c: (1, er[c]) for c in OL.CATS})
     if not q:
         shapes += [{'kex': (1, 1, 1), 'key': (1,), 'enc': (2, 1), 'mac': (1, 2)}, {'kex': (2,), 'key': (1, 1, 1), 'enc': (), 'mac': (1, 1, 1)},
                    {'kex': (k['kex'][0], 2, k['kex'][1]), 'key': (k['key'][0],), 'enc': (1, k['enc'][1], 1), 'mac': ()}]
@@ -368,6 +439,9 @@ def tasks(tier):
     for a, b in ((1, 1), (1, 2), (2, 1)) if q else ((1, 1), (1, 2), (2, 1), (2, 2), (3, 1)):
         T.append(ClientDirections(a, b))
     T.append(ClientDirections(1, 1, batch=True))
+    for comp in ([('zlib@openssh.com', 'none'), (1,), ('none', 1)] if q else [('zlib@openssh.com', 'none'), (1,), ('none', 1), ('none',), (1, 'none', 'zlib'), ('zlib',)]):
+        for js in (True, False):
+            T.append(AuditNames(comp, js))
     T.append(Ssh1('decode', 'ciphers'))
     T.append(Ssh1('decode', 'auths'))
     for v in ('text', 'json'):
@@ -385,6 +459,8 @@ def harness_by_name(name, params):
         return Text(p['shape'], p['client'], p['verbose'], p['batch'], p['comp'])
     if k == 'json':
         return Json(p['shape'], p['client'], p['comp'])
+    if k == 'auditnames':
+        return AuditNames(p['comp'], p['json'])
     if k == 'wirebytes':
         return WireBytes(p['field'], p['n'])
     if k == 'clientdirections':
